@@ -36,6 +36,7 @@ def run(ctx):
     ctx.step(copies, ctx)
     ctx.step(node_handles, ctx)
     ctx.step(addtype, ctx)
+    ctx.step(own_tags, ctx)
     ctx.step(byref, ctx)
     ctx.step(pair, ctx)
     ctx.step(common.generic_witnesses, ctx, "C17.generic", ["C17"])
@@ -188,6 +189,83 @@ def addtype(ctx):
         ctx.ob(rid, bool(creating), f.where, "addType reaches an inserting access to typeMap (operator[], emplace, insert)",
                "" if creating else "typeMap is only searched: an object stored without tags (two-argument addObject, a copy, a "
                "re-added name) can never be tagged", fn=f.label, inst=f.qname)
+
+
+def _template_args(t):
+    """top-level template arguments of a type string"""
+    i = t.find("<")
+    if i < 0 or not t.rstrip().endswith(">"):
+        return []
+    out, depth, cur = [], 0, ""
+    for ch in t[i + 1:t.rstrip().rfind(">")]:
+        if ch == "<":
+            depth += 1
+        elif ch == ">":
+            depth -= 1
+        if ch == "," and depth == 0:
+            out.append(cur.strip())
+            cur = ""
+        else:
+            cur += ch
+    if cur.strip():
+        out.append(cur.strip())
+    return out
+
+
+def own_tags(ctx, rid="C17.own-tags"):
+    """a copy made by copyObject carries the tags the source had AT THAT MOMENT: later addType() calls on either name
+    tag that name only.  With tag lists held by value in the map that is so by construction; once the map holds them
+    through a pointer (shared_ptr, raw pointer), copyObject must allocate a list of its own for the new name, or every
+    writer must un-share before it writes (use_count()/unique() test)."""
+    ctx.rule(rid, "every name owns its tag list: copyObject does not make two names share one mutable list", floor=0)
+    fb = ctx.fb
+    pointerish = None
+    for r in fb.records(tmpl=CLS):
+        fl = r.field("typeMap")
+        if fl is None:
+            ctx.broken("SearchableObjectHolder::typeMap not found (anchor vanished)")
+        targs = _template_args(fl["type"])
+        mapped = targs[1] if len(targs) > 1 else fl["type"]
+        pointerish = bool(re.match(r"^(std::shared_ptr<|std::unique_ptr<)", mapped)) or mapped.rstrip().endswith("*")
+        pointee = (_template_args(mapped) or [mapped.rstrip(" *")])[0] if pointerish else mapped
+        ctx.ob(rid, True, "%s:%d" % (r.file.split("/gmlc/")[-1] if "/gmlc/" in r.file else r.file, fl.get("line", r.line)),
+               "tag lists are held %s" % ("through a pointer: sharing is judged below" if pointerish else "by value: a copy is a copy"),
+               inst=r.qname)
+    if not pointerish:
+        return
+    for f in fb.functions(rec=CLS, name="copyObject"):
+        for st in _map_calls(f, "typeMap"):
+            if st["k"] != "CXXMemberCallExpr" or st["callee"]["name"] not in NON_REPLACING + ("insert_or_assign",) or not st["args"]:
+                continue
+            v = unwrap(f, f.s(st["args"][-1]))
+            fresh = v is not None and (v["k"] == "CXXNewExpr" or (v["k"] == "CallExpr" and callee_fq(v) in ("std::make_shared", "std::make_unique"))
+                                       or any(d["k"] == "CXXNewExpr" or (d["k"] == "CallExpr" and callee_fq(d) in ("std::make_shared", "std::make_unique"))
+                                              for d in f.descendants(v)))
+            if fresh:
+                ctx.ob(rid, True, f.loc(st), "copyObject allocates a tag list of its own for the new name", "", fn=f.label, inst=f.qname)
+                continue
+            # the pointer itself is copied: every writer has to un-share first
+            writers = []
+            for g in fb.functions(rec=CLS):
+                if g.kind in ("ctor", "dtor"):
+                    continue
+                if not any(s["k"] == "MemberExpr" and s["m"].get("is_field") and s["m"]["name"] == "typeMap" for s in g.stmts.values()):
+                    continue
+                # a tag list is the only object of that vector type the class handles
+                muts = [s for s in g.stmts.values() if s["k"] == "CXXMemberCallExpr" and
+                        s["callee"]["name"] in ("push_back", "emplace_back", "insert", "erase", "clear", "pop_back", "assign", "resize") and
+                        (g.s(s.get("obj")) or {}).get("t", "").replace("const ", "").rstrip(" *&") == pointee]
+                if muts and not any(s["k"] == "CXXMemberCallExpr" and s["callee"]["name"] in ("use_count", "unique") for s in g.stmts.values()):
+                    writers.append((g, muts[0]))
+            if writers:
+                g, s = writers[0]
+                ctx.ob(rid, False, f.loc(st), "copyObject gives the new name a tag list of its own (or writers un-share before writing)",
+                       "the pointer to the source's list is filed under the new name and %s writes through it at %s without testing "
+                       "whether the list is shared: a tag added to one name appears on every copy" % (g.name, g.loc(s)),
+                       fn=f.label, inst=f.qname)
+            else:
+                ctx.unknown("%s: copyObject shares the tag list between names and the writers test use_count()/unique(); whether that "
+                            "copy-on-write is complete is not decided" % rid)
 
 
 def _map_calls(f, mapname):
